@@ -75,9 +75,9 @@ FAMILIES = {
         rule='parallel handlers dispatching at interleaved times, nested awaits, forwarding of roots and children, explicit parents, event_bus reads; '
              'non-trivial: a handler instance dispatches'),
     'C10': dict(
-        gens=[('core', dict(p_timeout=0.6, proglen=(1, 6)), 0.45), ('chain', dict(p_timeout=1.0, p_selfparent=0.15), 0.25),
+        gens=[('core', dict(p_timeout=0.6, proglen=(1, 6)), 0.41), ('chain', dict(p_timeout=1.0, p_selfparent=0.15), 0.25),
               ('chain', dict(p_timeout=1.0, p_await=0.95, min_depth=3, nb=(1, 1), maxh=(50,)), 0.12), ('deep', dict(), 0.08),
-              ('sibling', dict(), 0.05), ('partimeout', dict(), 0.05)],
+              ('sibling', dict(), 0.05), ('partimeout', dict(), 0.05), ('cleanup', dict(), 0.04)],
         facets=CORE + ['timeout', 'results', 'signal', 'unfinished', 'lineage', 'await', 'lock'],
         rule='per-type timeouts (odd multiples of 1/128 s) against handler programs of sleeps (multiples of 1/64 s), nested awaits; serial buses; '
              'non-trivial: a handler is cancelled by a deadline'),
@@ -169,7 +169,7 @@ def gen_backlog(rng, p_waitidle=0.0, **_):
     return sc
 
 
-GENS = {'core': gen.gen_core, 'backlog': gen_backlog, 'chain': gen.gen_chain, 'stop': gen.gen_stop, 'idle': gen.gen_idle, 'deep': gen.gen_deep, 'sibling': gen.gen_sibling, 'parraise': gen.gen_parraise, 'deepfwd': gen.gen_deepfwd, 'parshare': gen.gen_parshare, 'partimeout': gen.gen_partimeout, 'cycle': gen.gen_cycle, 'errnest': gen.gen_errnest, 'fwdfail': gen.gen_fwdfail, 'evictgap': gen.gen_evictgap, 'expects': gen.gen_expects, 'outbox': gen.gen_outbox, 'retrychain': gen.gen_retrychain, 'fanin': gen.gen_fanin}
+GENS = {'core': gen.gen_core, 'backlog': gen_backlog, 'chain': gen.gen_chain, 'stop': gen.gen_stop, 'idle': gen.gen_idle, 'deep': gen.gen_deep, 'sibling': gen.gen_sibling, 'parraise': gen.gen_parraise, 'deepfwd': gen.gen_deepfwd, 'parshare': gen.gen_parshare, 'partimeout': gen.gen_partimeout, 'cycle': gen.gen_cycle, 'errnest': gen.gen_errnest, 'fwdfail': gen.gen_fwdfail, 'evictgap': gen.gen_evictgap, 'expects': gen.gen_expects, 'outbox': gen.gen_outbox, 'retrychain': gen.gen_retrychain, 'fanin': gen.gen_fanin, 'cleanup': gen.gen_cleanup}
 
 
 def bus_classes(rng, sc):
@@ -202,7 +202,7 @@ def scenarios(prop, tier, seed):
     # a slice of every family's budget goes to the union of all families' streams: defects sit where features meet (the WAL and
     # completion, stop() and the lock, bus names and awaits, ...), and every monitor is evaluated on every history anyway
     mix = int(total * MIX_SHARE) if prop not in NO_MIX else 0
-    union = [(g, o) for p_, f_ in sorted(FAMILIES.items()) if 'gens' in f_ and p_ != 'XPAR' for (g, o, _) in f_['gens']]
+    union = [(g, o) for p_, f_ in sorted(FAMILIES.items()) if 'gens' in f_ and p_ != 'XPAR' for (g, o, _) in f_['gens'] if g != 'cleanup']
     rng = random.Random(f'{prop}:mix:{seed}')
     for i in range(mix):
         gname, opts = union[rng.randrange(len(union))]
